@@ -23,19 +23,32 @@ def dispatch (op : String) (args : List Sexp) : String :=
   | "sock.send" => opSockSend args
   | _ => "bad-op"
 
-partial def loop (hin hout : IO.FS.Stream) : IO Unit := do
+/-- ops that read or change the target held by the driver process -/
+def dispatchState (tgt : Option FullTarget) (op : String) (args : List Sexp) : Option FullTarget × String :=
+  match op, tgt with
+  | "target.new", _ =>
+      match targetNew args with
+      | some t => (some t, "ok")
+      | none => (tgt, "bad-args")
+  | "target.frame", some t => let (t', out) := targetFrame t args; (some t', out)
+  | "target.log", some t => let (t', out) := targetLog t; (some t', out)
+  | "target.state", some t => (tgt, targetState t)
+  | "target.tcpclose", some t => (some (Tgt.tcpClosed t), "ok")
+  | _, _ => (tgt, dispatch op args)
+
+partial def loop (hin hout : IO.FS.Stream) (tgt : Option FullTarget) : IO Unit := do
   let line ← hin.getLine
   if line.isEmpty then return ()
-  let out :=
+  let (tgt', out) :=
     match Sexp.parseLine line with
-    | some (Sexp.atom op :: args) => dispatch op args
-    | _ => "bad-line"
+    | some (Sexp.atom op :: args) => dispatchState tgt op args
+    | _ => (tgt, "bad-line")
   hout.putStrLn out
   hout.flush
-  loop hin hout
+  loop hin hout tgt'
 
 def main : IO Unit := do
   let hin ← IO.getStdin
   let hout ← IO.getStdout
-  loop hin hout
+  loop hin hout none
   hout.flush
